@@ -297,8 +297,44 @@ func c05Sequential(c *explore.Ctx) {
 	}
 }
 
+// c05Faults: a transient I/O error at each mutating file-system call of Compact (C04's fault layer, restricted to
+// Compact): whether Compact fails or tolerates the fault, the contents seen by the next process - after the process
+// dies, or closes and exits - are exactly the acknowledged ones.
+func c05Faults(c *explore.Ctx) {
+	for _, bc := range [][2]string{{"S2", "ROLL"}, {"S3", "ROLL"}, {"SM", "ROLLM"}, {"S4", "ROLL"}} {
+		base, err := explore.GetBase(bc[0], cfgByName(bc[1]), 0)
+		if err != nil {
+			c.HarnessError("%v", err)
+		}
+		explore.PinSeed(0)
+		memo := recMemo{}
+		for _, pre := range [][]explore.Op{{}, {{Kind: explore.Delete, Key: "a"}}, {{Kind: explore.Put, Key: "a"}}, {{Kind: explore.Delete, Key: "b"}}} {
+			if !c.Mine() {
+				continue
+			}
+			for n := 1; n < 300; n++ {
+				if c.Expired() || c.NViolations() > 0 {
+					return
+				}
+				done, v := c04FaultCase(c, base, bc[0], bc[1], pre, explore.Op{Kind: explore.Compact}, n, memo)
+				if v != nil {
+					c.Violation(*v)
+					return
+				}
+				if done {
+					break
+				}
+			}
+		}
+	}
+}
+
 func runC05(c *explore.Ctx) {
 	c05Sequential(c)
+	if c.Expired() || c.NViolations() > 0 {
+		return
+	}
+	c05Faults(c)
 	if c.Expired() || c.NViolations() > 0 {
 		return
 	}
